@@ -146,6 +146,11 @@ def shapes(pat):
     q3 = G.select(src, [G.from_expr(T(t1))])
     yield dict(name="insert/no-list/arity-eq", ast=ins(q3), scope=[t1], target=tg, target_cols=TARGET_COLS[:3],
                oracle=("positions", t1, srcnames, ["z0", "z1", "z2"]))
+    # the query in parentheses right after the table (`insert into t (select ...)`): still no column list
+    insb = ins(q3)
+    insb[-1] = True
+    yield dict(name="insert/no-list/bracketed-query", ast=insb, scope=[t1], target=tg, target_cols=TARGET_COLS[:3],
+               oracle=("positions", t1, srcnames, ["z0", "z1", "z2"]))
     yield dict(name="insert/no-list/arity-gt", ast=ins(q3), scope=[t1], target=tg, target_cols=TARGET_COLS[:4],
                oracle=("none",))
     q3n = G.select([G.item(G.col(c)) for c in srcnames], [G.from_expr(T(t1))])
@@ -246,8 +251,13 @@ def run_case13(case):
             sql = case["sql"]
             if isinstance(sql, list):
                 sql = ";\n".join(sql)
-            lr = LineageRunner(sql, dialect=case.get("dialect", "ansi"), **kw)
-            res = sqlimpl.result_of(lr, ("tables", "columns", "cyto"))
+            if case.get("default_schema"):
+                with SQLLineageConfig(DEFAULT_SCHEMA=case["default_schema"]):
+                    lr = LineageRunner(sql, dialect=case.get("dialect", "ansi"), **kw)
+                    res = sqlimpl.result_of(lr, ("tables", "columns", "cyto"))
+            else:
+                lr = LineageRunner(sql, dialect=case.get("dialect", "ansi"), **kw)
+                res = sqlimpl.result_of(lr, ("tables", "columns", "cyto"))
             if prov is not None and case.get("provider") == "sqlite":
                 prov.engine.dispose()
         return {"result": res}
@@ -504,6 +514,10 @@ def run(chk):
             raise Infra("duplicate shape name " + sh["name"])
         shape_base[(pat, sh["name"])] = b
     results = run_all([{"sql": j["sh"]["sql"], "dialect": dialect, "provider": j["provider"], "metadata": j["md"]} for j in jobs])
+    # O7: every table of these statements is schema-qualified, so a configured DEFAULT schema — here the schema most of the known
+    # tables live in — must not change anything (the metadata lookups go by the table's own schema)
+    results_ds = run_all([{"sql": j["sh"]["sql"], "dialect": dialect, "provider": j["provider"], "metadata": j["md"], "default_schema": "sa"}
+                          for j in jobs])
     sqlimpl.close_pool()
     # ---- model answers (dict semantics; the sqlite provider must behave like the dict)
     mreq, midx = [], {}
@@ -531,6 +545,13 @@ def run(chk):
         st.c[f"shape:{sh['name'].split('/')[0].split('-')[0]}"] += 1
         st.c[f"known:{len(j['known'])}"] += 1
         bad = check_oracles(sh, j["pat"], j["known"], res, base) if j["pat"] != "random" else check_random(j, res, base)
+        rds = results_ds[k]
+        if "result" in res and "rejected" not in rds and j["pat"] != "random" and rds.get("result") != res["result"]:
+            got = pairs(rds) if "result" in rds else rds.get("error")
+            bad.append(("O7", f"with DEFAULT_SCHEMA=sa (every table is written schema-qualified) the answer changes: pairs {got} "
+                              f"instead of {pairs(res)}", None))
+            st.c["O7:mismatch"] += 1
+        st.c["O7:checked"] += 1
         for orc, msg, cls in bad:
             if cls == "D46-star-vs-positions" and "D46-star-vs-positions" in listed:
                 chk.known("D46-star-vs-positions"); d27_seen += 1
@@ -650,6 +671,10 @@ def replay(chk, obj):
             bad = check_oracles(sh, r["pattern"], r["known"], res, base)
         else:
             bad = check_random({"known": r["known"]}, res, base)
+        if r.get("oracle") == "O7":
+            rds = run_case13({"sql": r["sql"], "dialect": r["dialect"], "provider": r["provider"], "metadata": r["metadata"], "default_schema": "sa"})
+            if "result" in res and "rejected" not in rds and rds.get("result") != res["result"]:
+                bad.append(("O7", "with DEFAULT_SCHEMA=sa the answer changes", None))
         print(json.dumps({"sql": r["sql"], "metadata": r["metadata"], "provider": r["provider"],
                           "with_provider": pairs(res) if "result" in res else res,
                           "without_provider": pairs(base) if "result" in base else base,
